@@ -3,6 +3,7 @@
 -/
 import PsProofs.CountSieve
 import PsProps.C04
+import PsModel.Generated.Locks
 
 namespace Ps.Props
 open Ps Ps.Spec
@@ -57,5 +58,15 @@ theorem C05_small_rows :
 example : (primeSieveCounts (fun n => decide n.Prime) 0 100 63).getD 1 0 = 8 := by decide
 /-- a twin cut by `stop` is not counted: [0, 12] has (3,5), (5,7) but not (11,13) -/
 example : (primeSieveCounts (fun n => decide n.Prime) 0 12 63).getD 1 0 = 2 := by decide
+
+/-- **C05 (model sources)** regenerated on every run: digests of the (comment-, hook- and whitespace-normalised) bodies of the
+    functions that the hand-written model behind the theorems of this file mirrors.  An edit to one of
+    them — harmless or not — breaks this obligation; the check then searches for a failing input
+    with the correspondence streams (DESIGN.md section 2, step 5). -/
+theorem C05_model_sources :
+    Gen.modelSources.filter (fun e => e.1 ∈ ["CountPrintPrimes.initCounts", "CountPrintPrimes.countkTuplets", "PrimeSieve.processSmallPrimes"]) =
+     [("CountPrintPrimes.initCounts", "08ae47d8a1173e6e802b"),
+      ("CountPrintPrimes.countkTuplets", "f17bfa234d9b21e83b89"),
+      ("PrimeSieve.processSmallPrimes", "aea93bdf6096ecdf2777")] := by decide
 
 end Ps.Props
